@@ -345,7 +345,7 @@ func cmdCheck(args []string) int {
 	if !ok {
 		fatal(2, "spec has no tier %s", *tier)
 	}
-	setTermOpts(spec.TermOpts)
+	setTermOpts(append(defaultTermOpts(spec.Property), spec.TermOpts...))
 	fillDefaults(&ts)
 
 	eng, err := loadEngine(&spec)
